@@ -344,40 +344,41 @@ fn alphabet(r: &mut ChaCha20Rng) -> [Element; NREG] {
 }
 
 /// 32-byte scalars on which an LSB-first double-and-add over the prime-order group meets an exceptional
-/// operand pair: at bit i the accumulator (k mod 2^i)*B equals +-2^i*B or is the identity, i.e.
-/// k mod 2^i = 2^i - m*r, m*r - 2^i or m*r.  Possible only for i >= 250 (2^250 < r < 2^251).
+/// operand relation: at bit i, with acc = (k mod 2^i)*B and M = 2^i*B, one of acc = 0, acc = +-M (equal / opposite
+/// operands), acc = +-M/2, acc = +-2M (so that acc + M = +-acc or +-M: a select between equal or opposite values).
+/// That is k mod 2^i = c (mod r) for c in {0, +-2^i, +-2^(i-1), +-2^(i+1)}, possible only for i >= 248
+/// (2^250 < r < 2^251); for each i the smallest few representatives v = c + m*r below 2^i are used, with bit i
+/// clear and set.
 pub fn exceptional_scalars() -> Vec<Vec<u8>> {
+    use ark_ff::{Field, PrimeField};
     let r = R_LE.to_vec();
     let mut v: Vec<Vec<u8>> = Vec::new();
-    let fit = |x: Vec<u8>| -> Vec<u8> {
-        let mut y = x;
+    let fit = |x: &[u8]| -> Vec<u8> {
+        let mut y = x.to_vec();
         y.resize(32, 0);
         y
     };
-    for i in 250..=255usize {
+    for i in 248..=255usize {
         let p2 = le_pow2(i, 33);
-        let mut mr = vec![0u8; 33];
-        for _m in 1..=4 {
-            mr = fit33(le_add(&mr, &r));
-            let mut lows: Vec<Vec<u8>> = Vec::new();
-            if le_less(&mr, &p2) {
-                lows.push(le_sub(&p2, &mr)); // 2^i - m r
-                lows.push(mr.clone());       // m r
-            }
-            if le_less(&p2, &mr) {
-                let d = le_sub(&mr, &p2);    // m r - 2^i
-                if le_less(&d, &p2) {
-                    lows.push(d);
+        let two = Fr::from(2u64);
+        let mut targets: Vec<Fr> = vec![Fr::from(0u64)];
+        for e in [i - 1, i, i + 1] {
+            let t = two.pow([e as u64]);
+            targets.push(t);
+            targets.push(-t);
+        }
+        for c in targets {
+            let mut val = c.to_bytes_le().to_vec();
+            val.resize(33, 0);
+            for _m in 0..3 {
+                if !le_less(&val, &p2) {
+                    break;
                 }
-            }
-            for low in lows {
-                let mut lo = low.clone();
-                lo.resize(33, 0);
-                v.push(fit(lo.clone()));
-                let hi = le_add(&lo, &p2);
+                v.push(fit(&val));
                 if i < 255 {
-                    v.push(fit(hi));
+                    v.push(fit(&le_add(&val, &p2)));
                 }
+                val = fit33(le_add(&val, &r));
             }
         }
     }
@@ -507,6 +508,22 @@ fn lazy(out: &mut dyn Write, r: &mut ChaCha20Rng, seqs: &[String]) {
                 let cs = ConstraintSystem::<Fq>::new_ref();
                 cs.set_optimization_goal(OptimizationGoal::Constraints);
                 cs.set_mode(SynthesisMode::Prove { construct_matrices: true });
+                // the second operand of the selections: 2B, allocated from its encoding and forced to hold both the
+                // encoding and the element BEFORE the variable under observation exists
+                let other: Option<ElementVar> = if seq.contains('S') || seq.contains('T') {
+                    guarded(|| {
+                        let two_b = Element::GENERATOR + Element::GENERATOR;
+                        let w: ElementVar = AllocVar::<Fq, Fq>::new_witness(cs.clone(), || Ok(two_b.vartime_compress_to_field()))?;
+                        let _ = w.compress_to_field()?;
+                        let _ = w.value()?;
+                        let _ = w.negate()?;
+                        Ok::<ElementVar, SynthesisError>(w)
+                    })
+                    .ok()
+                    .and_then(|x| x.ok())
+                } else {
+                    None
+                };
                 let var: Result<ElementVar, String> = guarded(|| {
                     if from == "encoding" {
                         AllocVar::<Fq, Fq>::new_witness(cs.clone(), || Ok(s)).map_err(|e| format!("{:?}", e))
@@ -538,8 +555,16 @@ fn lazy(out: &mut dyn Write, r: &mut ChaCha20Rng, seqs: &[String]) {
                                 v += Element::GENERATOR;
                                 Ok(json!({}))
                             }),
-                            _ => guarded(|| {
+                            'M' => guarded(|| {
                                 v -= Element::GENERATOR;
+                                Ok(json!({}))
+                            }),
+                            // conditional selection against the second variable: 'S' takes it, 'T' keeps v
+                            _ => guarded(|| {
+                                let w = other.clone().ok_or(SynthesisError::AssignmentMissing)?;
+                                let c = Boolean::new_witness(cs.clone(), || Ok(op == 'T'))?;
+                                let sel = ElementVar::conditionally_select(&c, &v, &w)?;
+                                v = sel;
                                 Ok(json!({}))
                             }),
                         };
@@ -934,6 +959,36 @@ fn shapes(out: &mut dyn Write, r: &mut ChaCha20Rng, n: usize) {
             }
         }
     }
+    // scalar_mul_le in proving mode on EVERY exceptional scalar (one setup-mode reference first), for two bases,
+    // and the pinned discrete-log circuit's shape on each of them
+    emit(out, json!({"k":"reset","build":BUILD}));
+    for (bi, base) in [al[2], al[7]].iter().enumerate() {
+        for (j, k) in ex.iter().enumerate() {
+            let ins = Ins { p: *base, q: *base, s: base.vartime_compress_to_field(), k: k.clone(), cond: false };
+            for setup in [true, false] {
+                if setup && j > 0 {
+                    continue;
+                }
+                let run = run_gadget(setup, None, |cs| synth("scalar_mul_le", cs, &ins, Mode::Witness));
+                emit(out, json!({"k":"shape","g":"scalar_mul_le","mode":"witness","synth":if setup {"setup"} else {"prove"},
+                    "nc":run.nc,"ni":run.ni,"nw":run.nw,"mh":run.mh.to_le_bytes().to_vec(),"sat":run.sat.unwrap_or(false),"has_sat":run.sat.is_some(),"err":run.err.clone().unwrap_or_default()}));
+            }
+            if bi == 0 {
+                let mut scalar = [0u8; 32];
+                scalar.copy_from_slice(k);
+                let dl = DiscreteLogCircuit { scalar, public: Fr::from_le_bytes_mod_order(&scalar) * Element::GENERATOR };
+                for setup in [true, false] {
+                    if setup && j > 0 {
+                        continue;
+                    }
+                    let run = circuit_shape(dl.clone(), setup);
+                    emit(out, json!({"k":"shape","g":"circuit:discrete_log","mode":"circuit","synth":if setup {"setup"} else {"prove"},
+                        "nc":run.nc,"ni":run.ni,"nw":run.nw,"mh":run.mh.to_le_bytes().to_vec(),"sat":run.sat.unwrap_or(false),"has_sat":run.sat.is_some(),"err":run.err.clone().unwrap_or_default()}));
+                }
+            }
+        }
+    }
+    emit(out, json!({"k":"reset","build":BUILD}));
     // public input: exactly one instance variable, equal to the element's field encoding = ToConstraintField
     for t in 0..(NREG + n) {
         let p = if t < NREG { al[t] } else { Element::encode_to_curve(&rand_fq(r)) };
